@@ -70,6 +70,7 @@ def apply(text, rules, what, log):
     text, n = r0_attrs(text)
     text, n = r0_vis(text)
     text, n = r0_pubfields(text)
+    text, n = r0_crate_paths(text)
     text, n = r0_duration_const(text)
     if n:
         log['rewrites'].append({'rule': 'R0c', 'item': what, 'count': n, 'note': 'Duration const as exec const with value ensures'})
@@ -201,6 +202,20 @@ def r0_duration_const(text):
     new = ('pub exec const %s: Duration\n    ensures %s.ns@ == %s * %s,\n{ Duration::from_%s(%s) }'
            % (name, name, val, mult, unit, val))
     return new, 1
+
+
+def r0_crate_paths(text):
+    """`crate::a::b::Name` -> `Name` (macro-generated code spells full paths; the unit is one flat namespace)"""
+    m = mask(text)
+    out = []
+    last = 0
+    n = 0
+    for mo in re.finditer(r'(?<![A-Za-z0-9_:])crate::(?:[a-z_][a-z0-9_]*::)*', m):
+        out.append(text[last:mo.start()])
+        last = mo.end()
+        n += 1
+    out.append(text[last:])
+    return ''.join(out), n
 
 
 def r1_format(text):
@@ -623,7 +638,27 @@ def r4n_name_for_iter(text):
     return text, n
 
 
+def r5p_mut_param(text):
+    """`fn f(.., mut x: T, ..) { B }` -> `fn f(.., x: T, ..) { let mut x = x; B }` (binding-mode sugar on a by-value parameter)"""
+    m = mask(text)
+    j = 0
+    while m[j] != '{':
+        if m[j] in '([':
+            j = match_close(m, j)
+        j += 1
+    header = text[:j]
+    names = re.findall(r'(?<![A-Za-z0-9_])mut\s+(' + _IDENT + r')\s*:', mask(header))
+    names = [x for x in names if x != 'self']
+    if not names:
+        return text, 0
+    for x in names:
+        header = re.sub(r'(?<![A-Za-z0-9_])mut\s+' + x + r'(\s*:)', x + r'\1', header, count=1)
+    lets = ''.join('\nlet mut %s = %s;' % (x, x) for x in names)
+    return header + '{' + lets + text[j + 1:], len(names)
+
+
 RULES = {
+    'R5P': r5p_mut_param,
     'R4N': r4n_name_for_iter,
     'R6P': r6p_position,
     'R3V': r3v_for_vec,
